@@ -106,7 +106,7 @@ META = {
         "technique": "Lean 4 proof (codec round-trip lemmas, per-format decode∘encode = id) + correspondence over all channels",
     },
     "C06": {
-        "text": "The model's export equals an independently written layout specification (Spec/Layout.lean: documented cell arrays and footers, little-endian codecs written out again, documented FNV-1a hashing rule with the published constants) as a total characterisation for Bloom, hex, counting Bloom, count-min (row-major), expanding/rotating, cuckoo and counting cuckoo (C06_*_file); bit/cell addressing theorems; reference READERS working on the file bytes agree with the library for Bloom, counting Bloom, count-min min/mean/mean-min (C06_reader_*); reference WRITERS reproduce the library's file from the key list for Bloom, counting Bloom, count-min, expanding and rotating (C06_writer_*). The constants/layouts of the model are regenerated from the source on every run, the spec pins the documented ones — including the two sizing doubles a C reader re-derives the geometry with (C06_sizing_constants_documented: the extracted constants, constant expressions evaluated, ARE 0.4804530139182 and 0.6931471805599453 bit for bit); the search scans est_elements for a geometry departing from the documented rule. Tie: payload of every export channel + cells after every add; search: independent Python reference reader/writer.",
+        "text": "The model's export equals an independently written layout specification (Spec/Layout.lean: documented cell arrays and footers, little-endian codecs written out again, documented FNV-1a hashing rule with the published constants) as a total characterisation for Bloom, hex, counting Bloom, count-min (row-major), expanding/rotating, cuckoo and counting cuckoo (C06_*_file); bit/cell addressing theorems; reference READERS working on the file bytes agree with the library for Bloom, counting Bloom, count-min min/mean/mean-min (C06_reader_*); reference WRITERS reproduce the library's file from the key list for Bloom, counting Bloom, count-min, expanding and rotating (C06_writer_*). The constants/layouts of the model are regenerated from the source on every run, the spec pins the documented ones — including the two sizing doubles a C reader re-derives the geometry with (C06_sizing_constants_documented: the extracted constants, constant expressions evaluated, ARE 0.4804530139182 and 0.6931471805599453 bit for bit); the search scans est_elements for a geometry departing from the documented rule. Tie: payload of every export channel + cells after every add; search: independent Python reference reader/writer for Bloom (in memory and the on-disk file, histories with clear()), counting Bloom, count-min (histories with remove, negative totals, clear()), expanding/rotating, and a reference READER plus the placement rule for the cuckoo formats (fingerprint = low bits of FNV-1a, buckets fp mod capacity and FNV-1a(str(fp)) mod capacity).",
         "design_ref": "§4 C06",
         "note": TIE + " No reference writer for the cuckoo formats (the file is pinned as a function of the table; which table results is C03/C15). A compiled C reader is not part of the registered checks.",
         "technique": "Lean 4 proof (model encode = independent layout spec; reference reader/writer equivalence) + translator-regenerated layouts + correspondence",
@@ -118,7 +118,7 @@ META = {
         "technique": "Lean 4 proof (counter invariants by induction over histories, ∀ oracle) + correspondence after every step",
     },
     "C04": {
-        "text": "UNCONDITIONAL exact-set theorem (C04_exact_set): for every quotient size 3..31, auto-expand on/off and every history of add / remove / resize (manual or automatic) / merge on 32-bit hashes in which no call raised, the complete table equals `layout q S` — the canonical table, given by an independent executable specification incl. wrap-around, of the set S of hashes added and not removed since — check is exact membership, get_hashes is S without duplicates, elements_added = |S|. Built from: Layer A (look-up and iteration on layout q S are exact and terminate, all table sizes: C04_contained, C04_hashes), Layer B (add and remove map layout S to layout (S ∪ {h}) / layout (S ∖ {h}), all table sizes — the metadata repair pass provably restores canonical form: C04_B1_add, C04_B2_remove) and the induction over histories (C04_partial). remove never raises or diverges (C04_remove_total); add without auto-resize is refused exactly for a new hash into a table holding size−1 hashes (C04_add_outcome). Tie: the qf suite compares the COMPLETE real state (three metadata arrays, remainders, count, hashes) with the mirrored model AND with layout(set) computed by the specification after EVERY operation (real = mirror = layout), q ∈ {3,4,5,8}, long runs, wrap-around, several automatic resizes, merges; a step budget observes non-termination.",
+        "text": "UNCONDITIONAL exact-set theorem (C04_exact_set): for every quotient size 3..31, auto-expand on/off and every history of add / remove / resize (manual or automatic) / merge on 32-bit hashes in which no call raised, the complete table equals `layout q S` — the canonical table, given by an independent executable specification incl. wrap-around, of the set S of hashes added and not removed since — check is exact membership, get_hashes is S without duplicates, elements_added = |S|. Built from: Layer A (look-up and iteration on layout q S are exact and terminate, all table sizes: C04_contained, C04_hashes), Layer B (add and remove map layout S to layout (S ∪ {h}) / layout (S ∖ {h}), all table sizes — the metadata repair pass provably restores canonical form: C04_B1_add, C04_B2_remove) and the induction over histories (C04_partial). remove never raises or diverges (C04_remove_total); add without auto-resize is refused exactly for a new hash into a table holding size−1 hashes (C04_add_outcome). Tie: the qf suite compares the COMPLETE real state (three metadata arrays, remainders, count, hashes) with the mirrored model AND with layout(set) computed by the specification after EVERY operation (real = mirror = layout), q ∈ {3,4,5,8}, long runs, wrap-around, several automatic resizes, merges (also of a filter into itself); a step budget observes non-termination. Search: random histories against a Python set, the key API with a user-supplied hash function across resizes, and a directed generator for self-merges at the resize threshold (it found the genuine defect D14, repaired in /repo 5210d6f).",
         "design_ref": "§4 C04",
         "note": TIE + " Termination is proved for every call: look-up, iteration, remove, non-resizing add (C04.lean) and — second module C04_termination.lean — add_alt/resize/merge with the budget the driver gives them never run out (C04_step_terminates, C04_history_terminates: every history ends in the canonical table of its set or in QuotientFilterError, without any 'no call raised' hypothesis; explicit attained bounds |H|+3, 2|H|+3, |H|+2|hs|+2). Hashes < 2^32; the three Bitarrays are modelled as List Bool (C20 is that refinement).",
         "technique": "Lean 4 refinement proof to a canonical-layout specification (read paths, write paths, induction over histories) + correspondence of the complete state against the layout specification",
